@@ -396,6 +396,8 @@ pub fn queries(tier: Tier) -> Vec<GenQuery> {
         out.push(q(format!("SELECT id FROM users {op} SELECT user_id FROM orders"), &["users", "orders"], &["setop", tag]));
         out.push(q(format!("SELECT id FROM users WHERE age > 18 {op} SELECT id FROM users WHERE city = 'A'"), &["users"], &["setop", tag]));
         out.push(q(format!("SELECT city FROM users {op} SELECT city FROM ref"), &["users", "ref"], &["setop", tag]));
+        // an arm that reads a derived table
+        out.push(q(format!("SELECT id FROM users {op} SELECT id FROM (SELECT id FROM orders WHERE id > 1) AS t"), &["users", "orders"], &["setop", tag, "derived-arm"]));
         if thorough {
             out.push(q(format!("SELECT id, age FROM users WHERE id < 3 {op} SELECT id, age FROM users WHERE id > 1"), &["users"], &["setop", tag]));
             out.push(q(format!("SELECT age AS x FROM users {op} SELECT id AS x FROM users"), &["users"], &["setop", tag]));
